@@ -140,4 +140,16 @@ def cumsumResultCode (t : Nat) (dtype : Option Nat) : Nat :=
 def cumsumInclGraph (x : TG) (t : Nat) (dtype : Option Nat) (axis : Int) : Option TG :=
   (cumsumGraph x t dtype axis).map (fun cs => includeInitialGraph cs axis (cumsumResultCode t dtype))
 
+/-- `argmax(x, axis=, keepdims=)` / `argmin` on an integer array of ONNX element type `t` and rank `rank`: the operand
+goes through int64; `axis=None` flattens first and reshapes the scalar result to `[1]*rank` when `keepdims`; a negative
+axis is normalised in Python. -/
+def argextGraph (x : TG) (isMax : Bool) (t rank : Nat) (axis : Option Int) (keepdims : Bool) : TG :=
+  match axis with
+  | none =>
+      let flat := reshapeGraph x rank [-1]
+      let out := TG.argext isMax 0 false (if t = 7 then flat else .cast 7 flat)
+      .reshape out (ivec (if keepdims then List.replicate rank 1 else []))
+  | some a =>
+      .argext isMax (normAxis rank a) keepdims (if t = 7 then x else .cast 7 x)
+
 end Ndx.TGraph
